@@ -154,6 +154,11 @@ func (rc *rootCtx) roots(v ssa.Value) []root {
 	rc.depth++
 	defer func() { rc.depth-- }()
 
+	if substEnv != nil {
+		if s, ok := substEnv[v]; ok && s != v {
+			return rc.roots(s)
+		}
+	}
 	switch x := v.(type) {
 	case *ssa.Parameter:
 		return []root{{kind: rkParam, v: x}}
@@ -302,12 +307,14 @@ func (rc *rootCtx) moduleCallRoots(c *ssa.Call, fn *ssa.Function) []root {
 	} else {
 		retRootsBusy[fn] = true
 		sub := &rootCtx{P: rc.P, seen: map[ssa.Value]bool{}}
-		eachInstr(fn, func(_ *ssa.BasicBlock, _ int, in ssa.Instruction) {
-			if ret, ok := in.(*ssa.Return); ok {
-				for _, rv := range ret.Results {
-					rets = append(rets, sub.roots(rv)...)
+		withoutSubst(func() {
+			eachInstr(fn, func(_ *ssa.BasicBlock, _ int, in ssa.Instruction) {
+				if ret, ok := in.(*ssa.Return); ok {
+					for _, rv := range ret.Results {
+						rets = append(rets, sub.roots(rv)...)
+					}
 				}
-			}
+			})
 		})
 		rets = dedupRoots(rets)
 		retRootsMemo[fn] = rets
